@@ -18,12 +18,25 @@ func (p *Program) Print() string {
 			fmt.Fprintf(&sb, "templ %s(a A) {", c.Name)
 		}
 		pr := &printer{sb: &sb}
+		if p.Script != nil {
+			pr.script = p.Script.Name
+		}
 		pr.nodes(c.Body, 1)
 		pr.sep(c.End, 0)
 		sb.WriteString("}\n\n")
 		if i == 0 && p.GoFunc {
 			fmt.Fprintf(&sb, "func helper%s(s string) string {\n\treturn s + \"!\"\n}\n\n", p.Name)
 		}
+	}
+	if p.Script != nil {
+		fmt.Fprintf(&sb, "script %s(x string) {\n\t%s\n}\n\n", p.Script.Name, p.Script.Body)
+	}
+	if p.CSS != nil {
+		fmt.Fprintf(&sb, "css %s() {\n", p.CSS.Name)
+		for _, kv := range p.CSS.Props {
+			fmt.Fprintf(&sb, "\t%s: %s;\n", kv[0], kv[1])
+		}
+		sb.WriteString("}\n\n")
 	}
 	out := sb.String()
 	if p.CRLF {
@@ -37,6 +50,7 @@ type printer struct {
 	// templ's parser needs whitespace after an unquoted attribute value
 	// (`<a id=v>` is rejected, `<a id=v >` is accepted)
 	lastUnquoted bool
+	script       string // name of the file's script template
 }
 
 func (pr *printer) sep(s Sep, depth int) {
@@ -108,9 +122,15 @@ func (pr *printer) attrs(as []*Attr, depth int, nl bool) {
 			w.WriteString("href={ templ.URL(" + a.X.Src() + ") }")
 		case ASpread:
 			w.WriteString("{ a.At... }")
+		case AOnEvent:
+			w.WriteString(a.Name + "={ " + pr.script + "(" + a.X.Src() + ") }")
 		case AClass:
 			var ps []string
 			for _, p := range a.Parts {
+				if p.CSS != nil {
+					ps = append(ps, p.CSS.Name+"()")
+					continue
+				}
 				if p.Cond == nil {
 					ps = append(ps, fmt.Sprintf("%q", p.Lit))
 				} else {
@@ -219,6 +239,8 @@ func (pr *printer) node(n *Node, depth int) {
 			pr.sep(n.End, depth)
 			w.WriteString("}")
 		}
+	case KScriptCall:
+		w.WriteString("@" + pr.script + "(" + n.ArgS.Src() + ")")
 	case KSlot:
 		if n.Sp%3 == 1 {
 			w.WriteString("{children...}")
